@@ -12,8 +12,9 @@ Import ListNotations.
 Local Open Scope N_scope.
 Local Open Scope outcome_scope.
 
-Definition symseq (off len : N) : str :=
-  map (fun i => 256 + off + N.of_nat i) (seq 0 (N.to_nat len)).
+Fixpoint symseq_from (n : nat) (v : N) : str :=
+  match n with O => [] | S k => v :: symseq_from k (N.succ v) end.
+Definition symseq (off len : N) : str := symseq_from (N.to_nat len) (256 + off).
 
 (* cut a stream into segments of the given lengths (whatever is left becomes a last segment) *)
 Fixpoint split_segs (stream : str) (lens : list N) : list str :=
@@ -27,13 +28,16 @@ Definition copy_buf_size : nat := N.to_nat 32768.
 
 (* [m] = len(buf).  Writes to a live destination are complete (nw = nr, ew = nil);
    a failing write ends the loop with an error and is part of the race model below. *)
-Fixpoint copy_loop (fuel : nat) (m : nat) (src : list str) (acc : str) : option str :=
+Fixpoint copy_loop (fuel : nat) (m : nat) (src : list str) : option str :=
   match fuel with
   | O => None
   | S f =>
       let '(d, src', eof) := src_read m src in
-      if eof then Some acc                       (* nr = 0, er = io.EOF: break, err = nil *)
-      else copy_loop f m src' (acc ++ d)         (* dst.Write(buf[0:nr]) *)
+      if eof then Some []                        (* nr = 0, er = io.EOF: break, err = nil *)
+      else match copy_loop f m src' with         (* dst.Write(buf[0:nr]), next round *)
+           | Some r => Some (d ++ r)
+           | None => None
+           end
   end.
 
 Definition src_measure (src : list str) : nat := length (concat src) + length src.
@@ -41,7 +45,7 @@ Definition src_measure (src : list str) : nat := length (concat src) + length sr
 (* what the destination has received when the source is exhausted; [Err 77] = fuel
    (excluded by Proofs.Tunnel.copy_preserves_stream) *)
 Definition copy_buffer (src : list str) : outcome str :=
-  match copy_loop (S (src_measure src)) copy_buf_size src [] with
+  match copy_loop (S (src_measure src)) copy_buf_size src with
   | Some s => Ok s
   | None => Err 77
   end.
@@ -192,8 +196,10 @@ Definition tunnel_expect (up reply : str) (cwait : bool) (ce : cend) (ut : utrig
       if cwait then (if early then mk U R R else mk U 0 0)
       else
         (* the client's EOF ends the tunnel: the reply is relayed only as far as the
-           race lets it; a reply sent at EOF is never relayed *)
-        if early then mk U 0 R else mk U 0 0
+           race lets it; a reply sent at EOF is never relayed
+           (and when reply bytes are still unread at that moment the kernel resets the
+           upstream connection: client bytes still queued may be discarded as well) *)
+        if early then mk 0 0 R else mk U 0 0
   end.
 
 Definition no_tunnel : expectation :=
